@@ -189,22 +189,30 @@ def enum_docs(maxnodes, names=("a", "b"), attrs=(("x", "1"),), texts=("t", " "),
 def random_doc(rng, maxnodes=12, names=("a", "b", "c"), attrs=("x", "y", "id"), texts=("t", " ", "u", "1", "2"),
                avalues=("1", "2", "t", ""), comments=True, pis=True, ns=False, depth=4):
     budget = [rng.randint(3, maxnodes) - 1]
-    nsopts = [("", ""), ("p", "urn:u"), ("q", "urn:v")] if ns else [("", "")]
+    # with ns: prefixed names, names in a DEFAULT namespace (unprefixed, yet not in no namespace: an unprefixed name test must not
+    # match them), the default namespace undeclared again further in, and prefixed attributes
+    nsopts = [("", ""), ("", ""), ("p", "urn:u"), ("q", "urn:v"), ("", "urn:u"), ("", "urn:d")] if ns else [("", "")]
 
-    def mk_elem(d):
+    def mk_elem(d, dflt=""):
         budget[0] -= 1
         p, u = rng.choice(nsopts)
         al = []
+        pa = None
         for a in attrs:
             if budget[0] > 0 and rng.random() < 0.3:
                 budget[0] -= 1
-                al.append(A(a, rng.choice(avalues)))
+                if ns and a != "id" and rng.random() < 0.25:
+                    pa = rng.choice([("p", "urn:u"), ("q", "urn:v")]) if pa is None else pa
+                    al.append(A(a, rng.choice(avalues), p=pa[0], u=pa[1]))
+                else:
+                    al.append(A(a, rng.choice(avalues)))
+        mine = u if not p else dflt          # the default namespace in scope inside this element
         ch = []
         if d > 0:
             while budget[0] > 0 and rng.random() < 0.75:
                 r = rng.random()
                 if r < 0.55:
-                    ch.append(mk_elem(d - 1))
+                    ch.append(mk_elem(d - 1, mine))
                 elif r < 0.8:
                     if ch and ch[-1]["k"] == "text":
                         continue
@@ -217,8 +225,12 @@ def random_doc(rng, maxnodes=12, names=("a", "b", "c"), attrs=("x", "y", "id"), 
                     budget[0] -= 1
                     ch.append(PI(rng.choice(["t", "u"]), rng.choice(["d", ""])))
         nsd = []
-        if p or u:
+        if p:
             nsd = [[p, u]]
+        elif u != dflt:
+            nsd = [["", u]]                  # declares, or (u = "") undeclares, the default namespace
+        if pa is not None and [pa[0], pa[1]] not in nsd:
+            nsd.append([pa[0], pa[1]])
         return E(rng.choice(names), *ch, a=al, p=p, u=u, nsd=nsd)
 
     top = []
